@@ -672,7 +672,7 @@ def run_engine_property(pid: str, tier: str, seed: int, design_note: str) -> int
     props = C.coq_gate(chk)
     C.use_repo()
     rng = chk.rng
-    n_cases, max_ops = (220, 12) if tier == "quick" else (1800, 30)
+    n_cases, max_ops = (400, 12) if tier == "quick" else (2400, 30)
     prof_kw = PROFILES[pid]
     oracles = ORACLES[pid]
     terms, metas = [], []
